@@ -23,7 +23,7 @@ TECHNIQUE = ("runtime monitoring: real save/load/merge/delete round trips on gen
 RULE = ("seeded datasets (0-4 dims; int/float/complex/bool/str variables on subsets of the dims, scalars; int/float/str "
         "coordinates; NaN patterns; attrs of type int/float/str/list/ndarray/None/True/False) x engine {h5netcdf, joblib} "
         "x file names with / without extension (and with a non-extension dot) x chunks {None, int, dict} x entry point "
-        "(save_ds/load_ds, save_merge_ds twice - also with a second save that adds fractional labels to an integer axis or longer labels to a string axis -, a narrow stored axis widened by the second save, loads with create_new=True -, Harvester add_ds/delete_ds incl. backup=True); second merges giving precedence to stored (complex) data; distinct by dataset spec; non-trivial when "
+        "(save_ds/load_ds, save_merge_ds twice - also with a second save that adds fractional labels to an integer axis or longer labels to a string axis -, a narrow stored axis widened by the second save, loads with create_new=True -, Harvester add_ds/delete_ds incl. backup=True); second merges giving precedence to stored (complex) data; names given as pathlib.Path objects; megabyte datasets saved, loaded, saved over (also with the same size and time stamp) and re-loaded; attributes compared after a first save_merge_ds; distinct by dataset spec; non-trivial when "
         "the dataset has at least one variable with >= 1 dimension")
 ASSUMPTIONS = [
     "netcdf4 and zarr are not importable here and are not exercised",
